@@ -17,7 +17,7 @@
    asks again: the model tells it (0 < 1), position 14 says "C06:task-reissued-beyond-retry-limit".
    rw6_evs = rw5_evs + one more re-request: the model fails the task at its limit (INTERNAL), position 15 reads 2 <> 1 and
    says "C06:task-failed-before-retry-limit". *)
-From VF Require Import Sched.ProofsRetry1 Sched.Spec Sched.Corr.
+From VF Require Import Sched.ProofsRetry1 Sched.ProofsRetry2 Sched.Spec Sched.Corr.
 Open Scope Z_scope.
 
 (* position 14: a model history that satisfies every hypothesis, reports no panic, and is rejected *)
@@ -78,3 +78,12 @@ Example retry_repair_candidate_accepts_all_retry_histories :
    rb_accepts true rw3_cfg 0 rw3_evs = true /\ rb_accepts true rw3_cfg 0 rw4_evs = true /\
    rb_accepts true rw3_cfg 0 rw5_evs = true /\ rb_accepts true rw3_cfg 0 rw6_evs = true).
 Proof. exact (conj rb_unrepaired_rejects rb_repaired_accepts). Qed.
+
+(* bounded evidence for the same candidate (ProofsRetry2.v): every sequence of four moves (re-request, failure report,
+   Executing report, release of the latest call, deduplicated Execute, a jump past every time-out, success report, a second
+   worker) after "register, park, Execute, told", retry counts 0, 1, 2: the current bookkeeping rejects 0 / 20 / 2 of the
+   panic-free histories, the repaired one none *)
+Example retry_repair_candidate_small_histories :
+  map (fun r => List.length (filter (rs_bad false r) (rs_seqs 4))) [0%nat; 1%nat; 2%nat] = [0%nat; 20%nat; 2%nat] /\
+  map (fun r => filter (rs_bad true r) (rs_seqs 4)) [0%nat; 1%nat; 2%nat] = [[]; []; []].
+Proof. exact rs_search_4. Qed.
